@@ -1810,14 +1810,17 @@ c9_tuntap_read = Spec(
     PROP, 'stream', 'SSHTunTapStreamSession.read', self_class='SSHTunTapStreamSession',
     params=dict(datatype=KT9, n='int', exact='bool'),
     classes={'SSHTunTapStreamSession': {'_recv_buf': 'dict[' + KT9 + ',seq[bytes]]', '_recv_buf_len': 'int',
-                                        '_eof_received': 'bool'}},
+                                        '_eof_received': 'bool', '_read_locks': 'dict[' + KT9 + ',opaque:Lock]'}},
     stubs={'self._maybe_resume_reading': noop('resume'),
+           # (only used once the override takes the read lock, see notes/findings/c09_tuntap_concurrent_reads.patch)
+           'with self._read_locks[]': tuntap_env_stub(),
            'self._block_read': tuntap_env_stub(lambda cx: ('never-parks-once-eof-is-latched',
                                                            z3.Not(cx.selff('_eof_received').z)))},
     loops={1: LoopSpec(header='not self._eof_received',
                        invariant=lambda c: z3.Select(c.newv('_recv_buf').dom, to_z3(c.argv('datatype'), KT9)),
                        modifies=['_recv_buf', '_recv_buf_len', '_eof_received'])},
-    requires=lambda c: z3.Select(c.oldv('_recv_buf').dom, to_z3(c.argv('datatype'), KT9)),
+    requires=lambda c: z3.And(z3.Select(c.oldv('_recv_buf').dom, to_z3(c.argv('datatype'), KT9)),
+                              z3.Select(c.oldv('_read_locks').dom, to_z3(c.argv('datatype'), KT9))),
     returns='bytes',
     ensures=[], raises={'CancelledError': True})
 c9_tuntap_read.alias_map_lists = True
